@@ -11,14 +11,18 @@ var ErrInvalidAddr = errors.New("invalid IP subnet/host")
 func ParseIPNet(subnet string) (*net.IPNet, error) {
 	_, result, err := net.ParseCIDR(subnet)
 	if err == nil {
+		// only IPv4 networks can be scanned
+		if len(result.IP) != net.IPv4len || len(result.Mask) != net.IPv4len {
+			return nil, ErrInvalidAddr
+		}
 		return result, err
 	}
 	// try to parse host IP address instead
-	ipAddr := net.ParseIP(subnet)
+	ipAddr := net.ParseIP(subnet).To4()
 	if ipAddr == nil {
 		return nil, ErrInvalidAddr
 	}
-	return &net.IPNet{IP: ipAddr.To4(), Mask: net.CIDRMask(32, 32)}, nil
+	return &net.IPNet{IP: ipAddr, Mask: net.CIDRMask(32, 32)}, nil
 }
 
 func GetInterfaceIP(iface *net.Interface) (ifaceIP net.IP, err error) {
